@@ -25,6 +25,7 @@ BINARY = ["add", "floordiv", "and", "or", "lt", "eq", "in", "star_then", "pairle
 TERNARY = ["ifexp", "lt2", "and3", "or3"]
 ARITY = {k: 0 for k in ("int", "none", "true", "false", "name")}
 ARITY.update({k: 1 for k in UNARY})
+ARITY["fstr"] = 1     # f"{<c>}": only in its own family (its value is a string; the operators are not defined on those)
 ARITY.update({k: 2 for k in BINARY})
 ARITY.update({k: 3 for k in TERNARY})
 
@@ -82,6 +83,10 @@ class Obj:
     def __repr__(self) -> str:
         return "Obj({})".format(self.v)
 
+    def __format__(self, spec: str) -> str:
+        # formats unlike str() (as a quantity that prints its unit by default)
+        return "{} units".format(self.v)
+
     def __eq__(self, other: Any) -> bool:
         # a strict value object: comparison with a foreign type is an error (as numpy-like / typed values do)
         if not isinstance(other, Obj):
@@ -126,6 +131,9 @@ def py_value(v: dict, objs: Dict[int, Obj]) -> Any:
         return {1: int, 2: bool, 3: type(None), 4: list, 5: Obj, 6: type, 7: Amb}[v["n"]]
     if t == "amb":
         return objs.setdefault(-77, Amb())  # type: ignore
+    if t == "fmt":
+        src_t = {1: "int", 2: "bool", 3: "none", 4: "list", 5: "obj", 6: "cls", 7: "amb"}[v["s"][0]]
+        return format(py_value({"t": src_t, "n": v["n"], "s": list(v["s"][1:])}, objs), "")
     raise ValueError(t)
 
 
@@ -144,7 +152,17 @@ def tla_value_of(x: Any) -> list:
         return ["cls", {int: 1, bool: 2, type(None): 3, list: 4, Obj: 5, type: 6, Amb: 7}.get(x, 0), []]
     if isinstance(x, Amb):
         return ["amb", 0, []]
+    if isinstance(x, str):
+        return ["str", 0, [x]]       # (compared through py_value of the specification's "fmt" value, see _same_value)
     return ["?", 0, []]
+
+
+def _same_value(spec_v: Any, x: Any) -> bool:
+    """Does the specification's value [t, n, s] denote the Python value x?"""
+    if list(spec_v)[0] == "fmt":
+        t, n, ss = spec_v
+        return isinstance(x, str) and py_value({"t": t, "n": n, "s": list(ss)}, {}) == x
+    return list(spec_v) == tla_value_of(x)
 
 
 def parse(expr: list, p: int = 0) -> Tuple[dict, int]:
@@ -159,7 +177,7 @@ def parse(expr: list, p: int = 0) -> Tuple[dict, int]:
 
 
 ATOMIC = ("int", "none", "true", "false", "name", "ident", "len", "first", "attr", "all_gt", "all_pos", "sum_star", "comp", "typeof",
-          "star_then", "pairlen")
+          "star_then", "pairlen", "fstr")
 
 
 def render(node: dict, rec: bool = False) -> str:
@@ -195,6 +213,8 @@ def render(node: dict, rec: bool = False) -> str:
         s = "ident(" + sub(0, False) + ")"
     elif k == "len":
         s = "len(" + sub(0, False) + ")"
+    elif k == "fstr":
+        s = 'f"{' + sub(0) + '}"'
     elif k == "all_gt":
         s = "all(e > 0 for e in " + sub(0) + ")"
     elif k == "all_pos":
@@ -463,7 +483,7 @@ def check_cases(res: CheckResult, prop_clauses: Dict[str, set], cases: List[dict
                 evaluated = sorted({p for p, _ in mod.rec_log})
                 if spec_py["py"] != cpy[0] or (cpy[0] == "ok" and bool(spec_py["truthy"]) != cpy[1]) or \
                         sorted(spec_py["evaluated"]) != evaluated or \
-                        (cpy[0] == "ok" and list(spec_py["v"]) != tla_value_of(cpy[2])):
+                        (cpy[0] == "ok" and not _same_value(spec_py["v"], cpy[2])):
                     raise MachineryError("the specification's model of Python disagrees with CPython on `{}` with x={!r} "
                                          "y={!r}: spec {} vs CPython {} evaluated {}".format(
                                              text, xv, yv, spec_py, cpy[:2], evaluated))
@@ -725,6 +745,24 @@ def fam_typeof(rng: random.Random) -> List[list]:
             ia, ib = [_nd("ident")] + a, [_nd("ident")] + b
             out += [[_nd("lt2")] + i0 + ia + i2, [_nd("lt2")] + ia + ib + i2, [_nd("lt2")] + i0 + ia + ib,
                     [_nd("lt2")] + ia + i2 + ib, [_nd("not")] + [_nd("ident")] + [_nd("lt2")] + i0 + ia + ib]
+    return out
+
+
+def fam_fstr() -> List[list]:
+    """Formatted string literals f"{<c>}" (shown as a whole, with the text Python built): falsified by the enclosing
+    expression; operands incl. the harness's objects, which format unlike str()."""
+    x, y, cn, i2, no = [_nd("name", 1)], [_nd("name", 2)], [_nd("name", 3)], [_nd("int", 2)], [_nd("none")]
+    subs = [x, y, cn, i2, no, [_nd("attr")] + x, [_nd("first")] + y, [_nd("and")] + x + y, [_nd("or")] + x + y,
+            [_nd("ident")] + x, [_nd("ifexp")] + x + y + i2]
+    out = []
+    for a in subs:
+        fa = [_nd("fstr")] + a
+        out += [[_nd("not")] + fa, [_nd("isnone")] + fa, [_nd("isnone")] + [_nd("ident")] + fa, [_nd("and")] + fa + [_nd("false")],
+                [_nd("and3")] + x + fa + [_nd("false")], [_nd("ifexp")] + fa + [_nd("false")] + [_nd("true")],
+                [_nd("not")] + [_nd("or")] + fa + y]
+        for b in subs[:5]:
+            out.append([_nd("eq")] + fa + [_nd("fstr")] + b)
+            out.append([_nd("not")] + [_nd("ident")] + [_nd("eq")] + fa + [_nd("fstr")] + b)
     return out
 
 
